@@ -270,6 +270,19 @@ def writeBranches (q : Query) (req : Req) (out : HttpOut) : List String :=
       (if !acct.grants.any (fun g => (Spec.nodeOf g.1).map (·.head?) = some (some "database".toList)) then ["write-refused-api-write-only"] else [])
   (rpShape ++ dup ++ dupRp ++ others ++ decisive).map ("wq-" ++ ·)
 
+/-- What the extra headers / URL parameters of a request exercise (op httph). -/
+def headerBranches (hs : Query) (wire : List Char) (ran : List (List Char × Path)) : List String :=
+  let lower (s : List Char) : String := String.ofList (s.map Char.toLower)
+  let names := (hs.map (fun e => "hdr-" ++ (lower e.1).replace "?" "urlparam-")).eraseDups
+  let ov := hs.filterMap fun e =>
+    if (lower e.1 == "x-http-method-override" || lower e.1 == "?_method" || lower e.1 == "x-method-override"
+        || lower e.1 == "x-http-method" || lower e.1 == "x-forwarded-method") && e.2.map Char.toUpper ≠ wire.map Char.toUpper
+    then some ("hdr-names-other-method-on-" ++ String.ofList (wire.map Char.toUpper)) else none
+  let ovRan := if !ov.isEmpty ∧ !ran.isEmpty then ["hdr-names-other-method-wire-handler-ran"] else []
+  let ovNot := if !ov.isEmpty ∧ ran.isEmpty then ["hdr-names-other-method-nothing-ran"] else []
+  (if hs.isEmpty then ["hdr-none"] else []) ++ names ++ ov.eraseDups ++ ovRan ++ ovNot ++
+  (if ran.isEmpty then [] else ["ran-handler-identified"])
+
 def hasSub (s : List Char) (sub : String) : Bool := ((String.ofList s).splitOn sub).length > 1
 
 /-- What a raw request target exercises. -/
@@ -405,6 +418,39 @@ def judge (_id : String) (lines : Array String) : Verdict := Id.run do
         let bs := writeBranches q req (serveHTTP cfg 2 req)
         st := st.brs bs
         if bs.any (fun b => b.startsWith "wq-write-refused-though") then st := { st with nontrivial := true }
+      | _ => st := st.mm s!"{l}: unexpected observation"
+    | ["httph", ra, m, p, cred, hTok] =>
+      let some m := unescL m | return .badop l
+      let some p := unescL p | return .badop l
+      let some hs := parseQuery hTok | return .badop l
+      let some au := parseAuth cred | return .badop l
+      -- keys beginning with '?' are URL parameters (none of them is db/rp/u/p), the others request headers
+      let req : Req := { method := m, path := p, auth := au, params := hs.filter (fun e => e.1.head? = some '?') }
+      let hdrs : Headers := hs.filter (fun e => e.1.head? ≠ some '?')
+      match obs with
+      | [code, sv, wr, ranTok] =>
+        let cfg := mkCfg st ra
+        let ran? : Option (List (List Char × Path)) :=
+          if ranTok == "-" then some [] else
+          (ranTok.splitOn "+").mapM fun e =>
+            match e.splitOn "," with
+            | [hm, hp] => do pure (hm.toList, (← unescL hp))
+            | _ => none
+        let some ran := ran? | return .badop l
+        -- the property, on the handler that was OBSERVED to run
+        for (hm, hp) in ran do
+          if !Spec.ranOK cfg.requireAuth cfg.exposePprof cfg.svc req hm hp then
+            st := st.sf "handler-that-ran-was-authorised"
+              s!"{l}: the {String.ofList hm} handler of {escL hp} ran; no valid account of the request holds the privilege {String.ofList hm} requires on the resource"
+        st := judgeHttp st l cfg req code sv wr
+        let model : List (List Char × Path) :=
+          match ranRoute wireMethod cfg hdrs 2 req with
+          | some r => if r.kind = .recorder then [(r.method, r.pattern)] else []
+          | none => []
+        if ran ≠ model then
+          st := st.mm s!"{l}: model: handlers run = {model.map (fun e => String.ofList e.1 ++ "," ++ escL e.2)}"
+        st := st.brs (headerBranches hs m ran)
+        if cfg.requireAuth && !ran.isEmpty && !hs.isEmpty then st := { st with nontrivial := true }
       | _ => st := st.mm s!"{l}: unexpected observation"
     | ["httpraw", ra, m, t, cred, db] =>
       let some m := unescL m | return .badop l
